@@ -91,7 +91,7 @@ def make_class(rng, fields, rename_p=0.3, defaults=False, name=None, lim=None, f
         dflt = None
         if defaults and kind in ("sc", "str", "arr") and rng.random() < 0.5:
             if kind == "sc":
-                dflt = DT[sub].type(rng.choice([0, 1, 7, 3]))
+                dflt = DT[sub].type(rng.choice([0, 1, 7, 3] + ([1000000, 2.0 ** 24] if DT[sub].itemsize >= 4 else [100])))
                 ft = xo.Field(ft, default=dflt.item())
             elif kind == "str":
                 dflt = rng.choice(["", "dflt"])
